@@ -98,12 +98,20 @@ structure NoCrashAt (f : Nat) : Prop where
   idx : ∀ ts, NumOK ts → NC (parseIndexSpecifier f ts)
   lit : ∀ ts, NumOK ts → NC (parseLit f ts)
   paren : ∀ ts, NumOK ts → NC (parseParenExpr f ts)
+  caseE : ∀ ts, NumOK ts → NC (parseCaseExpr f ts)
+  caseLoop : ∀ ts, NumOK ts → NC (caseWhenLoop f ts)
+  caseWhen : ∀ ts, NumOK ts → NC (parseCaseWhen f ts)
+  caseElse : ∀ ts, NumOK ts → NC (parseCaseElse f ts)
+  ifE : ∀ ts, NumOK ts → NC (parseIfExpr f ts)
+  arr : ∀ ts, NumOK ts → NC (parseSimpleArrayLiteral f ts)
+  cast : ∀ ts, NumOK ts → NC (parseCastExpr f ts)
 
 theorem nocrash_zero : NoCrashAt 0 := by
   constructor <;> intros <;> simp only [parseExpr, parseOr, orLoop, parseAnd, andLoop, parseNot, parseComparison,
     parseBetweenTail, parseInCondition, inListLoop, parseBitOr, bitOrLoop, parseBitXor, bitXorLoop, parseBitAnd,
     bitAndLoop, parseBitShift, shiftLoop, parseAddSub, addLoop, parseMulDiv, mulLoop, parseUnary, parseSelector,
-    selLoop, parseIndexSpecifier, parseLit, parseParenExpr] <;> exact NC.oof
+    selLoop, parseIndexSpecifier, parseLit, parseParenExpr, parseCaseExpr, caseWhenLoop, parseCaseWhen, parseCaseElse,
+    parseIfExpr, parseSimpleArrayLiteral, parseCastExpr] <;> exact NC.oof
 
 /-! the rest of a successful call is a suffix of the input -/
 section Rest
@@ -122,7 +130,22 @@ theorem r_lit {a} (h : parseLit f ts = .ok a) (hn : NumOK ts) : NumOK a.2 := hn.
 theorem r_inCond {a} (h : parseInCondition f ts = .ok a) (hn : NumOK ts) : NumOK a.2 := hn.of_spells ((sound_all f).inCond ts a.1 a.2 h).1
 theorem r_inList {a} (h : inListLoop f ts = .ok a) (hn : NumOK ts) : NumOK a.2 := hn.of_spells ((sound_all f).inList ts a.1 a.2 h).1
 theorem r_idx {a} (h : parseIndexSpecifier f ts = .ok a) (hn : NumOK ts) : NumOK a.2 := hn.of_spells ((sound_all f).idx ts a.1 a.2 h).1
+theorem r_caseWhen {a} (h : parseCaseWhen f ts = .ok a) (hn : NumOK ts) : NumOK a.2 :=
+  hn.of_spells ((sound_all f).caseWhen ts a.1.1 a.1.2 a.2 h).1
+theorem r_caseLoop {a} (h : caseWhenLoop f ts = .ok a) (hn : NumOK ts) : NumOK a.2 :=
+  hn.of_spells ((sound_all f).caseLoop ts a.1 a.2 h).1
 end Rest
+
+/-- the type model has no run-time panic -/
+theorem castType_nc (f : Nat) (ts : List Token) : NC (castType f ts) := by
+  unfold castType
+  split
+  · split
+    · exact NC.outside
+    · split <;> first | exact NC.ok _ | exact NC.outside | exact NC.raise | exact NC.oof
+  · exact NC.outside
+  · exact NC.outside
+  · exact NC.raise
 
 theorem parseIsTail_nc (e : Expr) (ts : List Token) : NC (parseIsTail e ts) := by
   unfold parseIsTail
@@ -265,6 +288,10 @@ theorem nc_succ (ih : NoCrashAt f) : NoCrashAt (f + 1) where
     split
     all_goals first
       | exact ih.paren ts hn
+      | exact ih.caseE ts hn
+      | exact ih.ifE ts hn
+      | exact ih.arr ts hn
+      | exact ih.cast ts hn
       | exact NC.outside
       | exact NC.raise
       | (simp only [parseNullLiteral, parseBoolLiteral, parseIntLiteral, parseFloatLiteral, parseStringLiteral,
@@ -276,6 +303,74 @@ theorem nc_succ (ih : NoCrashAt f) : NoCrashAt (f + 1) where
     · exact NC.outside
     · refine NC.bind (ih.expr _ hn.tail) fun a _ => ?_
       (try simp only); split <;> first | exact NC.ok _ | exact NC.raise | exact NC.outside
+  caseE := fun ts hn => by
+    simp only [parseCaseExpr]; split
+    · refine NC.bind ?_ fun o ho => ?_
+      · split
+        · exact NC.ok _
+        · exact NC.bind (ih.expr _ hn.tail) fun _ _ => NC.ok _
+      · have hn1 : NumOK o.2 := hn.tail.of_spells (s_caseOperand (sound_all f) ho).1
+        refine NC.bind (ih.caseWhen _ hn1) fun w hw => ?_
+        have hn2 := r_caseWhen hw hn1
+        refine NC.bind (ih.caseLoop _ hn2) fun ws hws => ?_
+        have hn3 := r_caseLoop hws hn2
+        refine NC.bind ?_ fun el _ => ?_
+        · split
+          · exact NC.bind (ih.caseElse _ hn3) fun _ _ => NC.ok _
+          · exact NC.ok _
+        · (try simp only); split <;> first | exact NC.ok _ | exact NC.raise
+    · exact NC.raise
+  caseLoop := fun ts hn => by
+    simp only [caseWhenLoop]; split
+    · refine NC.bind (ih.caseWhen _ hn) fun w hw => ?_
+      exact NC.bind (ih.caseLoop _ (r_caseWhen hw hn)) fun _ _ => NC.ok _
+    · exact NC.ok _
+  caseWhen := fun ts hn => by
+    simp only [parseCaseWhen]; split
+    · refine NC.bind (ih.expr _ hn.tail) fun c hc => ?_
+      have hn1 := r_expr hc hn.tail
+      (try simp only); split
+      · exact NC.bind (ih.expr _ hn1.tail) fun _ _ => NC.ok _
+      · exact NC.raise
+    · exact NC.raise
+  caseElse := fun ts hn => by
+    simp only [parseCaseElse]; split
+    · exact ih.expr _ hn.tail
+    · exact NC.raise
+  ifE := fun ts hn => by
+    simp only [parseIfExpr]; split
+    · split
+      · refine NC.bind (ih.expr _ hn.tail.tail) fun c hc => ?_
+        have hn1 := r_expr hc hn.tail.tail
+        (try simp only); split
+        · refine NC.bind (ih.expr _ hn1.tail) fun t ht => ?_
+          have hn2 := r_expr ht hn1.tail
+          (try simp only); split
+          · refine NC.bind (ih.expr _ hn2.tail) fun e _ => ?_
+            (try simp only); split <;> first | exact NC.ok _ | exact NC.raise
+          · exact NC.raise
+        · exact NC.raise
+      · exact NC.raise
+    · exact NC.raise
+  cast := fun ts hn => by
+    simp only [parseCastExpr]; split
+    · split
+      · refine NC.bind (ih.expr _ hn.tail.tail) fun a _ => ?_
+        (try simp only); split
+        · refine NC.bind (castType_nc _ _) fun t _ => ?_
+          (try simp only); split <;> first | exact NC.ok _ | exact NC.raise
+        · exact NC.raise
+      · exact NC.raise
+    · exact NC.raise
+  arr := fun ts hn => by
+    simp only [parseSimpleArrayLiteral]; split
+    · split
+      · exact NC.ok _
+      · refine NC.bind (ih.expr _ hn.tail) fun a ha => ?_
+        have hn1 := r_expr ha hn.tail
+        refine NC.bind (ih.inList _ hn1) fun b _ => ?_
+        (try simp only); split <;> first | exact NC.ok _ | exact NC.raise
+    · exact NC.raise
 
 end Step
 
